@@ -237,6 +237,16 @@ func c05Run(c *verifeng.Chooser, f *c05fix, env *verifhfs.Env, mode string, dept
 	if mode == "C06" && c.ChooseFree(2, "encoding") == 1 {
 		opts = append(opts, Encoding(wire.BaseEncoding))
 	}
+	// the client's (network-adjusted) clock may have moved back since the
+	// header was accepted: the requested block's timestamp is then more than
+	// two hours ahead of it. Whatever the client makes of that, it must not
+	// return or cache a block that fails the statement's checks.
+	clock := f.now
+	clockBehind := false
+	if mode == "C06" && c.ChooseFree(2, "clock") == 1 {
+		clockBehind = true
+		clock = f.chain[target].Hdr.Timestamp.Add(-3 * time.Hour)
+	}
 	cs := &ChainService{
 		BlockHeaders:     bs,
 		RegFilterHeaders: fs,
@@ -244,7 +254,7 @@ func c05Run(c *verifeng.Chooser, f *c05fix, env *verifhfs.Env, mode string, dept
 		FilterCache:      lru.NewCache[FilterCacheKey, *CacheableFilter](cacheCap),
 		BlockCache:       lru.NewCache[wire.InvVect, *CacheableBlock](1 << 22),
 		chainParams:      *f.params,
-		timeSource:       vfxTime{f.now},
+		timeSource:       vfxTime{clock},
 		quit:             make(chan struct{}),
 		query:            make(chan interface{}),
 		banStore:         h.banStore,
@@ -422,7 +432,7 @@ func c05Run(c *verifeng.Chooser, f *c05fix, env *verifhfs.Env, mode string, dept
 					}})
 				}
 				add("other", fmt.Sprintf("block(T%d, a different valid block)", want%c05Len+1), f.data[want%c05Len+1].Block, false, 0, false)
-				for _, mut := range []string{"mutated-tx", "added-tx", "removed-tx", "stripped-witness", "forged-commitment"} {
+				for _, mut := range []string{"mutated-tx", "added-tx", "removed-tx", "replaced-txs", "stripped-witness", "forged-commitment"} {
 					add(mut, fmt.Sprintf("block(T%d header, %s)", want, mut), mutateBlock(f.data[want].Block, mut), false, 0, true)
 				}
 			}
@@ -464,6 +474,60 @@ func c05Run(c *verifeng.Chooser, f *c05fix, env *verifhfs.Env, mode string, dept
 	}
 	if c.Failed() {
 		return
+	}
+	// ---- chatty holder: the peer that holds the request keeps sending
+	// messages that are no answer and no progress (a block nobody asked for /
+	// a filter of the wrong type), one a second, for longer than the
+	// request's timeout can be by now; the request must be taken away from
+	// it ("any other response is ignored, the request is retried with other
+	// peers") - re-sent to a peer, or the call has ended.
+	if o := h.outstanding(); o != nil && !callers[0].tk.Done() && os.Getenv("VFX_LENIENT") == "" {
+		copies := func() int {
+			n := 0
+			for i := range h.sent {
+				if h.sent[i].msg == o.msg {
+					n++
+				}
+			}
+			return n
+		}
+		before := copies()
+		rounds := 2<<advances + 2
+		var noise wire.Message
+		switch req := o.msg.(type) {
+		case *wire.MsgGetData:
+			for i := 1; i <= c05Len; i++ {
+				if f.chain[i].Hash == req.InvList[0].Hash {
+					noise = f.data[i%c05Len+1].Block
+				}
+			}
+		case *wire.MsgGetCFilters:
+			tgt := int(req.StartHeight)
+			data, _ := f.data[tgt].Filter.NBytes()
+			noise = wire.NewMsgCFilter(wire.FilterType(7), &f.chain[tgt].Hash, data)
+		}
+		p := o.peer
+		for r := 0; noise != nil && r < rounds && !c.Failed(); r++ {
+			if copies() > before || callers[0].tk.Done() || p.gone {
+				break
+			}
+			tk := verifbubble.Go("noise", func() (any, error) {
+				select {
+				case p.msgs <- noise:
+				case <-time.After(time.Millisecond):
+				}
+				return nil, nil
+			})
+			verifbubble.Wait()
+			_ = tk
+			time.Sleep(time.Second)
+			verifbubble.Wait()
+		}
+		if noise != nil && copies() == before && !callers[0].tk.Done() && !p.gone {
+			c.Fail(mode, mode+":request-kept-alive-by-unrelated-responses",
+				"peer %s held the request for %d s in which it only sent messages that are no answer to it; the request was neither re-sent to any peer nor did the call end", p.name, rounds)
+			return
+		}
 	}
 	// ---- wind down: let every job time out / fail, callers must return.
 	// Without any connected peer a batch is only ended by shutdown (the
@@ -511,6 +575,12 @@ func c05Run(c *verifeng.Chooser, f *c05fix, env *verifhfs.Env, mode string, dept
 			}
 		}
 		for _, p := range h.peers {
+			if clockBehind {
+				// with the block's timestamp out of bounds the client
+				// may reject (and ban for) the intact block too; the
+				// statement does not speak about that
+				break
+			}
 			if !invalidFrom[p.addr] && h.isBanned(p.addr) {
 				c.Fail("C06", "C06:innocent-peer-banned", "peer %s never sent an invalid block for the request but is banned", p.addr)
 				return
@@ -667,6 +737,17 @@ func mutateBlock(b *wire.MsgBlock, how string) *wire.MsgBlock {
 				in.Witness = nil
 			}
 		}
+	case "replaced-txs":
+		// the requested header over a transaction list without any
+		// witness data or commitment (nothing for the commitment check to
+		// object to): only the merkle root tells
+		cb := wire.NewMsgTx(1)
+		cb.AddTxIn(&wire.TxIn{PreviousOutPoint: wire.OutPoint{Index: 0xffffffff}, SignatureScript: []byte{0x01, 0x07, 0x51}, Sequence: 0xffffffff})
+		cb.AddTxOut(wire.NewTxOut(50, []byte{0x51}))
+		plain := wire.NewMsgTx(1)
+		plain.AddTxIn(&wire.TxIn{PreviousOutPoint: wire.OutPoint{Hash: chainhash.Hash{1, 2, 3}, Index: 0}, SignatureScript: []byte{0x51}, Sequence: 0xffffffff})
+		plain.AddTxOut(wire.NewTxOut(7, []byte{0x51}))
+		m.Transactions = []*wire.MsgTx{cb, plain}
 	case "forged-commitment":
 		// a different witness for the spend: txids (and the merkle root)
 		// stay the same, the commitment no longer matches
